@@ -93,7 +93,11 @@ def main(argv=None):
     for r in results:
         if r.get('status') in ('ok', 'violation') and r.get('nontrivial'):
             keys.add(r.get('key') or json.dumps(specs[r['i']], sort_keys=True, default=str))
-    distinct = agg.get('distinct_nontrivial', len(keys))
+    distinct = len(keys)
+    if any('nontrivial_count' in r for r in results):   # cases that enumerate many sequences
+        distinct = sum(int(r.get('nontrivial_count', 0)) for r in results
+                       if r.get('status') in ('ok', 'violation'))
+    distinct = agg.get('distinct_nontrivial', distinct)
     obs = _sum_obs(results)
     obs.update(agg.get('obs', {}))
 
